@@ -117,7 +117,7 @@ def _build_small(unit, L, mutant):
 
 
 B = {
-    "quick": {"depfile": [1, 2, 3], "small": [3, 5], "canon": [3, 5, 6], "json": [2, 3], "escape": [2, 3], "deps_T": [4, 8], "deps_layout": [0, 1, 2]},
+    "quick": {"depfile": [1, 2, 3], "small": [3, 5], "canon": [3, 5, 6], "json": [2, 3], "escape": [2, 3], "deps_T": [4, 8], "deps_layout": [0, 1, 2, 4]},
     "thorough": {"depfile": [1, 2, 3, 4], "small": [4, 7], "canon": [4, 6, 8], "json": [3, 4], "escape": [3, 5], "deps_T": [4, 8, 9, 12], "deps_layout": [0, 1, 2, 3, 4]},
 }
 
@@ -174,9 +174,9 @@ MUTANTS = [
     ("depslog_nul_path_underflow", _m("Load", "if (path_size > 0 && buf[path_size - 1] == '\\0') --path_size;\n      if (path_size > 0 && buf[path_size - 1] == '\\0') --path_size;",
                                       "if (buf[path_size - 1] == '\\0') --path_size;\n      if (buf[path_size - 1] == '\\0') --path_size;")),
     ("canon_reads_past_end", _m("canon", "while (src + 3 <= end && src[0] == '.'", "while (src + 2 <= end && src[0] == '.'")),
-    ("showincludes_length_check", _m("small", "if (end - in > (int)prefix.size() &&", "if (end - in >= (int)prefix.size() - 1 &&")),
-    ("strip_ansi_skips_check", _m("small", "if (i + 1 >= in.size()) break;", "if (i + 2 >= in.size() + 2) break;")),
-    ("depfile_memset_length", _m("depfile", "int n = len / 2 - 1;\n        if (out < start)\n          memset(out, '\\\\', n);", "int n = len / 2 - 1;\n        if (out < start)\n          memset(out, '\\\\', len);")),
+    ("showincludes_skips_past_end", _m("small", "in += prefix.size();", "in += prefix.size() + 2;")),
+    ("strip_ansi_unbounded_skip", _m("small", "while (i < in.size() && !islatinalpha(in[i]))", "while (!islatinalpha(in[i]))")),
+    ("depfile_empty_name_underflow", _m("depfile", "if (len > 0 && filename[len - 1] == ':') {", "if (filename[len - 1] == ':') {")),
 ]
 
 
